@@ -342,8 +342,25 @@ func (g *Gen) Value() ([]byte, uint64) {
 		v = []byte(fmt.Sprintf("sv-%d", g.R.Intn(3)))
 	} else {
 		v = []byte(fmt.Sprintf("val-%s%d", g.Tag, g.Ctr))
+		if g.R.Intn(5) == 0 { // long values: 40..120 bytes, unique tail beyond byte 32
+			pad := make([]byte, 36+g.R.Intn(80))
+			for i := range pad {
+				pad[i] = 'a' + byte(i%23)
+			}
+			v = append(append([]byte("long-value-with-a-common-32-byte-head/"), pad...), v...)
+		}
 	}
 	return v, WeightOf(v)
+}
+
+// SameWeightValue returns a fresh value whose weight equals w.
+func (g *Gen) SameWeightValue(w uint64) []byte {
+	for {
+		v, vw := g.Value()
+		if vw == w {
+			return v
+		}
+	}
 }
 
 // Key returns a 32-byte key; with existing keys it often copies a random-length nibble prefix (0..63 nibbles) of one.
